@@ -199,14 +199,26 @@ def cases(rng, tier, shard, nshards):
         if rng.random() < 0.4 and n > 12:     # tight groups so that multi-member clusters are common
             start = int(rng.integers(1, n - 8))
             knees = np.unique(np.concatenate((knees, np.arange(start, min(start + int(rng.integers(2, 6)), n - 1)))))
-        yield {'points': pts, 'family': meta['family'], 'layout': gen.pick_layout(rng, pts), 'knees': knees.astype(int),
-               'linkage': pick(rng, LINKAGES), 't': float(10.0 ** rng.uniform(-2.5, 0)),
-               'mode': pick(rng, MODES + ['corners'])}
+        c = {'points': pts, 'family': meta['family'], 'layout': gen.pick_layout(rng, pts), 'knees': knees.astype(int),
+             'linkage': pick(rng, LINKAGES), 't': float(10.0 ** rng.uniform(-2.5, 0)),
+             'mode': pick(rng, MODES + ['corners'])}
+        if rng.random() < 0.3:      # history: another ranking mode / linkage / knee subset on the SAME array
+            k2 = knees if rng.random() < 0.5 else gen.knee_subset(rng, n, kmin=2, kmax=12)
+            c['follow'] = {'knees': np.asarray(k2).astype(int), 'linkage': pick(rng, LINKAGES),
+                           't': float(10.0 ** rng.uniform(-2.5, 0)), 'mode': pick(rng, MODES + ['corners'])}
+        yield c
 
 
 def run_case(ctx, mods, case):
-    pp, kr, cl = mods['postprocessing'], mods['knee_ranking'], mods['clustering']
     pts = gen.present(case['points'], case['layout'])
+    run_step(ctx, mods, case, pts, case)
+    if case.get('follow'):
+        ctx.h('history', 'follow-up call on the same array')
+        run_step(ctx, mods, case, pts, dict(case['follow'], points=case['points'], family=case['family']))
+
+
+def run_step(ctx, mods, parent, pts, case):
+    pp, kr, cl = mods['postprocessing'], mods['knee_ranking'], mods['clustering']
     knees = np.asarray(case['knees'], dtype=int)
     link = getattr(cl, case['linkage'])
     STATE['nontrivial'] = False
